@@ -560,11 +560,13 @@ class World:
                             (dict(c.vars), dict(self.raw.vars)))
         # changes of the order in the duplicate stay in the duplicate
         how = self.rng.randrange(4)
+        if how == 2 and len(c.vars) < 2:
+            how = 3
         if how == 0:
             c.declare('dup_only')
         elif how == 1:
             c.add_var('dup_only')
-        elif how == 2 and len(c.vars) >= 2:
+        elif how == 2:
             c.swap(0, 1)
         if how <= 2:
             monitors.check_order_maps(c)
@@ -674,6 +676,16 @@ class World:
         a, b = self.pick(), self.pick()
         r = self.raw.apply('xor', node_of(a.h), node_of(b.h))
         r2 = self.raw.apply('and', node_of(a.h), -node_of(b.h))
+        # rooted nowhere: nothing may be removed (only `None` means
+        # "scan every node")
+        nodes = set(self.raw._succ)
+        self.raw.collect_garbage(
+            self.rng.choice(([], (), set(), frozenset(), iter(()))))
+        if set(self.raw._succ) != nodes:
+            raise Violation('collect_garbage(roots)',
+                            'collection-without-roots-removed-nodes',
+                            sorted(nodes - set(self.raw._succ)))
+        self.ctx.count('gc_with_empty_roots')
         before = len(self.raw)
         roots = [r, -r2, node_of(a.h)]
         form = self.rng.randrange(5)
